@@ -15,8 +15,13 @@ Decided:
          the werkzeug debugger, is the one table entry); reraise_uncaught defaults to falsy;
   R08.d  a failed request leaves no trace: no function reachable from Application.__call__ in the core
          modules stores into a shared object (shared with C12).
-Declined: exceptions raised by primitive operations outside the protected region (see DESIGN.md O3);
-completeness of werkzeug's response objects.
+  R08.e  the error serialisers never use error text as a format template;
+  R08.f  URL converters run under a handler (conversion failure = no match);
+  R08.g  no strict bytes<->text conversion (``.decode(codec)`` without an errors argument) on the part of the
+         request path that no handler covers: the call-graph closure from Application.__call__ through call
+         sites not enclosed in a handler catching UnicodeDecodeError (finding F13, DESIGN.md section 5).
+Declined: exceptions raised by other primitive operations outside the protected region (arithmetic,
+indexing, attribute access on werkzeug objects); completeness of werkzeug's response objects.
 """
 import ast
 
@@ -66,7 +71,10 @@ def run(rep):
     rp = RequestPath(repo)
     rep.decide('R08.a user code under Exception handlers (interprocedural); R08.b non-Response results converted; '
                'R08.c re-raise only if configured; R08.d no shared store on the request path')
-    rep.decline('exceptions from primitive operations outside the protected regions (DESIGN.md O3); werkzeug response completeness')
+    rep.decide('R08.e error serialisers never format with error text; R08.f converters under a handler; R08.g no strict '
+               'decode on the unprotected part of the request path')
+    rep.decline('exceptions from other primitive operations outside the protected regions (arithmetic, indexing, attribute '
+                'access on werkzeug objects); werkzeug response completeness')
     rep.assume('a bare raise re-raises the exception being handled (Python semantics)')
     rep.rule('R08.a', 'interprocedural must-catch over the call graph; handler shape in dispatch')
     rep.rule('R08.b', 'the non-Response TypeError is raised inside the protected region')
@@ -240,6 +248,63 @@ def run(rep):
     mp_h = protected_by(f, dv.match_st, 'Exception')
     rep.ok('R08.f', fkey(f, 'match_path call site'), 'route.match_path(...) is called %s the protected region of dispatch'
            % ('inside' if mp_h is not None else 'outside'), app, dv.match_st)
+
+    # ---- R08.g -----------------------------------------------------------
+    rep.rule('R08.g', 'no strict bytes<->text conversion on the part of the request path that no handler covers')
+    check_total_decoding(rep, 'R08.g', rp)
+
+
+def _strict_codec_call(c):
+    """``x.decode(...)`` / ``x.encode('ascii'|'latin-1')`` with strict error handling on a non-literal receiver."""
+    if not (isinstance(c, ast.Call) and isinstance(c.func, ast.Attribute) and c.func.attr in ('decode', 'encode')):
+        return None
+    if isinstance(c.func.value, ast.Constant):
+        return None
+    if c.args and not (isinstance(c.args[0], ast.Constant) and isinstance(c.args[0].value, str)):
+        return None      # not a codec call (e.g. a JSON encoder's .encode(obj))
+    errs = c.args[1] if len(c.args) > 1 else kwarg(c, 'errors')
+    if errs is not None:
+        if isinstance(errs, ast.Constant) and errs.value != 'strict':
+            return None
+        return 'decode' if c.func.attr == 'decode' else 'encode'
+    if c.func.attr == 'encode':
+        codec = (c.args[0].value if c.args else 'utf-8').lower().replace('_', '-')
+        if codec in ('utf8', 'utf-8', 'utf-16', 'utf-32'):
+            return None      # total on text without lone surrogates (werkzeug decodes with errors="replace")
+        return 'encode'
+    return 'decode'
+
+
+def check_total_decoding(rep, rule, rp):
+    """Bytes that come from the client are arbitrary.  On the part of the request path that is *not* under a handler
+    (everything reachable from Application.__call__ through call sites no ``except`` clause covers), a strict
+    ``.decode`` raises UnicodeDecodeError for some request and that exception reaches the WSGI server."""
+    ctl = ast.parse("def f(r):\n    a = r.q.decode('utf8')\n    b = r.q.decode('utf8', 'replace')\n    c = enc.encode(obj)\n")
+    if [_strict_codec_call(c) for c in ast.walk(ctl) if isinstance(c, ast.Call)] != ['decode', None, None]:
+        raise AnalysisError('positive control for the strict-codec detector failed')
+
+    def covered(fi, node, kind):
+        return protected_by(fi, node, 'UnicodeDecodeError' if kind == 'decode' else 'UnicodeEncodeError')
+    unprot = rp.cg.reachable([rp.root], stop=lambda e: e.kind == 'prop' or protected_by(e.caller, e.node, 'UnicodeDecodeError') is not None)
+    n = 0
+    for fi, path in unprot.items():
+        if fi.mod.external:
+            continue
+        n += 1
+        for c in walk_body(fi.node):
+            kind = _strict_codec_call(c)
+            if kind is None:
+                continue
+            h = covered(fi, c, kind)
+            rep.check(rule, fkey(fi, norm(c)[:80]), h is not None,
+                      'strict %s is under "except %s"' % (kind, norm(h.type) if h is not None and h.type is not None else '<bare>') if h is not None else
+                      '%s is strict and no handler on the way from Application.__call__ covers it (%s): a request whose bytes are '
+                      'not valid in that codec raises Unicode%sError out to the WSGI server instead of getting a response'
+                      % (short(c), path_text(path) or 'called directly', kind.capitalize()), fi.mod, c)
+    rep.ok(rule, 'clastic::unprotected request path', '%d clastic functions are reachable from Application.__call__ through call '
+           'sites that no handler covers; their strict byte/text conversions were checked' % n)
+    if n < 5:
+        raise AnalysisError('unprotected request path has only %d functions (floor 5)' % n)
 
 
 def check_no_shared_store(rep, rule, rp=None):
